@@ -137,6 +137,18 @@ def fold(name, elem, term, ty="int"):
     FOLDS[name] = (T.parse_ty(elem), term, T.parse_ty(ty))
 
 
+def _load_enum(name):
+    from . import frontend as F
+    if name not in ENUM_SOURCES:
+        raise TypeError(f"enum {name} is not declared in the contracts")
+    file, cls = ENUM_SOURCES[name]
+    members = F.enum_members(file, cls)
+    T.declare_enum(name, [m for m, _ in members], dict(members))
+
+
+T.ENUM_LOADER = _load_enum
+
+
 def parse_clause(text):
     try:
         return ast.parse(text.strip(), mode="eval").body
